@@ -256,12 +256,6 @@ var allOracles = []Oracle{
 				}
 			}
 		case "reset_peer":
-			if !plain(tr) || tr.A1 < 0 {
-				return "", ""
-			}
-			if len(tr.Out) > 0 {
-				return "e2:C13:reset-leak", "reset_peer delivered data"
-			}
 			first := int64(-1)
 			firstOp := 0
 			if len(tr.AcceptedAt) > 0 {
@@ -271,6 +265,30 @@ var allOracles = []Oracle{
 			if tr.EosAt >= 0 && (first < 0 || tr.EosOp < firstOp) {
 				first = tr.EosAt
 				firstOp = tr.EosOp
+			}
+			if !plain(tr) && tr.A1 >= 0 && !tr.Reconfigured && len(tr.Active) >= 1 && tr.Active[0] && first >= 0 &&
+				len(tr.IntrAt) > 0 && tr.IntrAt[0] >= first {
+				// interrupted (a toxic change on the link) while the reset is pending: the pending
+				// reset is not cancelled - the stub still closes when the timeout has elapsed
+				horizon := int64(1) << 62
+				if len(tr.StartAt) > 1 {
+					horizon = tr.StartAt[1]
+				}
+				for _, sm := range tr.Samples {
+					if sm.T >= horizon {
+						break
+					}
+					if !sm.Closed && sm.T >= first+tr.A1*ms && sm.Op >= firstOp {
+						return "e2:C13:reset-cancelled-by-interrupt", "reset_peer did not close after its timeout: an interrupt during the wait cancelled the pending reset"
+					}
+				}
+				return "", ""
+			}
+			if !plain(tr) || tr.A1 < 0 {
+				return "", ""
+			}
+			if len(tr.Out) > 0 {
+				return "e2:C13:reset-leak", "reset_peer delivered data"
 			}
 			if first < 0 && tr.ClosedAt >= 0 {
 				return "e2:C13:reset-unprovoked", "reset_peer closed before any data or close from the sender"
